@@ -212,12 +212,12 @@ PROPS["C15"] = {
               {"name": "race", "pkg": "c15", "chk": "chk_c15_race", "args": ["race"]}],
     "reasons": {"seq": {"1": "an update was delivered although the contract equals the last delivered one, or a changed contract / the first success was not delivered",
                         "2": "a failed poll did not (only) report an error"},
-                "race": {"3": "a resolve-now request issued after a change while a poll was in progress was lost", "4": "a callback happened after Close had returned"}},
-    "rule": "seq: histories of 1-6 polls over a scripted reflection server whose contract (descriptor bytes and/or service list) changes between polls (4 versions), with protocol-version availability {both, v1 only, v1alpha only, neither}, failures at every protocol step (stream open, ListServices, k-th file response; error or timeout), 5 answering policies; polls driven by PollManually + ResolveNow; the flat callback sequence is compared. race: ResolveNow issued during a poll held open by gating the fake stream; Close during an in-flight poll. non-trivial = history with >= 3 polls",
-    "level_text": "Coq theorems over ALL histories of poll outcomes: the callback sequence is exactly - an update after the first success and after each success whose contract differs from the LAST DELIVERED one, an error (only) after each failure, nothing otherwise; the remembered fingerprint changes only together with an update (so a failure never loses or fakes a change); the result does not depend on the remembered protocol-version priority. Races: checked against the real resolver by gating (harness); the wake-up protocol is argued in DESIGN, not proved.",
+                "race": {"3": "a resolve-now request issued after a change while a poll was in progress was lost", "4": "a callback happened after Close had returned", "5": "random sequence of contract changes, ResolveNow calls and held-open polls: a resolve-now request issued after the last change was lost (the last delivered update is not the final contract)"}},
+    "rule": "seq: histories of 1-6 polls over a scripted reflection server whose contract (descriptor bytes and/or service list) changes between polls (4 versions), with protocol-version availability {both, v1 only, v1alpha only, neither}, failures at every protocol step (stream open, ListServices, k-th file response; error or timeout), 5 answering policies; polls driven by PollManually + ResolveNow; the flat callback sequence is compared. race: ResolveNow issued during a poll held open by gating the fake stream; Close during an in-flight poll; random sequences (4-12 actions) of contract changes, ResolveNow calls, gate closings / openings and pauses with the end-to-end oracle 'a request issued after the last change delivers the final contract'. non-trivial = history with >= 3 polls",
+    "level_text": "Coq theorems over ALL histories of poll outcomes: the callback sequence is exactly - an update after the first success and after each success whose contract differs from the LAST DELIVERED one, an error (only) after each failure, nothing otherwise; the remembered fingerprint changes only together with an update (so a failure never loses or fakes a change); the result does not depend on the remembered protocol-version priority. Races: the poller loop with any number of ResolveNow callers, a closer and a changing target is an LTS (Model/ResolverConc.v) with theorems over every interleaving - a returned resolve-now request after whose beginning no poll has started leaves the waiting poller's resolve-now branch enabled (never lost, also when it arrives during a poll), the next poll reads the contract afresh, no callback after Close returned; the loop that re-arms before every wait is refuted by a witness schedule. Tied to the code by gated runs and random sequences of changes / requests / held-open polls on the real resolver.",
     "level_note": "Trusted: Coq kernel, extraction, modelrun, Go harness (scripted reflection server, quiescence detection). Assumed: equal SHA-256 fingerprints mean equal contracts (fp_faithful); the poll timer is not modelled.",
     "design_ref": "DESIGN.md §3 C15",
-    "assumptions": ["fp_faithful (SHA-256 collision-freeness and unambiguous concatenation)", "ResolveNow/Close race statements are validated by gated runs, not proved in Coq"],
+    "assumptions": ["fp_faithful (SHA-256 collision-freeness and unambiguous concatenation)", "the concurrent poller model is tied to the code by gated and random runs with an end-to-end oracle, not by replaying model schedules"],
 }
 
 PROPS["C05"] = {
